@@ -27,8 +27,10 @@ theorem unigram_walk (c : UniCtx S) (fb : List Fallback) (piece : Bytes) (indice
         | .panic p => encodeUnigram c fb piece pre res0 indices = .panic p) :=
   Kitoken.Proofs.Unigram.unigram_walk c fb piece indices pre res0 hb h0 hid hmax
 
-/-- Optimality, proved in the region where the 1e6 restart value is harmless (`BoundedCost`; the code
-    violates the unrestricted statement, see `sentinel_counterexample` and DESIGN.md §7 F13):
+/-- Optimality for a plain cost type (the code before the F13 repair), proved in the region where the 1e6
+    restart value is harmless (`BoundedCost`; the pre-repair code violates the unrestricted statement, see
+    `sentinel_counterexample` and DESIGN.md §7 F13). Kept because it documents exactly what the repair
+    removed; the property itself is `viterbi_optimal` below:
     if the piece can be segmented into vocabulary entries, the tokens returned are such a segmentation
     and its cost is minimal (total score maximal) among all of them. -/
 theorem viterbi_optimal_partial [LawfulCost S] (c : UniCtx S) (fb : List Fallback) (piece : Bytes)
@@ -44,5 +46,36 @@ theorem viterbi_optimal_partial [LawfulCost S] (c : UniCtx S) (fb : List Fallbac
       ∀ s', IsSegFrom c.tok piece (indices ++ [piece.length]) 0 piece.length s' →
         Cost.le (cost seg) (cost s') = true :=
   Kitoken.Proofs.Unigram.viterbi_optimal_partial c fb piece indices pre res0 hb h0 hid hmax hbc seg0 hseg
+
+/-- THE PROPERTY for the code as repaired (F13): the cost of a node is its score together with the flag
+    `broken` (`Tainted S`), compared lexicographically. With that, no bound on the costs is needed: for
+    every vocabulary, scores of either sign, every piece that can be segmented into vocabulary entries
+    along its unit boundaries and every scratch-buffer prefix, the tokens returned are such a
+    segmentation and none has a smaller cost (= a larger total score). -/
+theorem viterbi_optimal [LawfulCost S] (c : UniCtx (Tainted S)) (fb : List Fallback) (piece : Bytes)
+    (indices : List Nat) (pre : List (SizedPart (Tainted S))) (res0 : List Id)
+    (hb : UnitBounds piece.length (indices ++ [piece.length]))
+    (h0 : (indices ++ [piece.length]).head? = some 0)
+    (hid : ∀ b id sc, c.tok b = some (id, sc) → id ≠ INVALID)
+    (hmax : ∀ b id sc, c.tok b = some (id, sc) → b.length ≤ c.maxTok)
+    (seg0 : List (Entry (Tainted S))) (hseg : IsSegFrom c.tok piece (indices ++ [piece.length]) 0 piece.length seg0) :
+    ∃ seg buffer', IsSegFrom c.tok piece (indices ++ [piece.length]) 0 piece.length seg ∧
+      encodeUnigram c fb piece pre res0 indices = .ok (buffer', res0 ++ seg.map (·.id)) ∧
+      ∀ s', IsSegFrom c.tok piece (indices ++ [piece.length]) 0 piece.length s' →
+        Cost.le (cost seg) (cost s') = true :=
+  Kitoken.Proofs.Unigram.viterbi_optimal c fb piece indices pre res0 hb h0 hid hmax seg0 hseg
+
+omit [Inhabited S] in
+/-- The cost of a segmentation is never `broken`, and between such costs the order is the order of the
+    scores: "minimal cost" in `viterbi_optimal` means what it should. -/
+theorem cost_unbroken (seg : List (Entry (Tainted S))) :
+    (cost seg).broken = false ∧ (cost seg).val = seg.foldl (fun acc e => Cost.sub acc e.score.val) Cost.zero :=
+  Kitoken.Proofs.Unigram.cost_unbroken seg
+
+/-- The former counterexample (vocabulary a: -400000, xyz: -1, yz: -1; piece "aaaxyz") under the repaired
+    comparison: the genuine segmentation wins. -/
+example : Kitoken.Proofs.Unigram.Examples.outIdsT
+    (encodeUnigram Kitoken.Proofs.Unigram.Examples.ctxST [.unknown] Kitoken.Proofs.Unigram.Examples.pieceS [] [] [0, 1, 2, 3, 4, 5]) =
+    some [0, 0, 0, 1] := Kitoken.Proofs.Unigram.Examples.repaired_example
 
 end Kitoken.C04
